@@ -360,7 +360,8 @@ def jobs(tier):
     # L4
     seqs = [(c,) for c in LITE_CALLS]
     pairs = [(a, b) for a in LITE_CALLS for b in LITE_CALLS]
-    seqs += pairs if tier == "thorough" else [p for i, p in enumerate(pairs) if i % 3 == 0 or p[0] in ("listen", "ack", "open_rx_pipe") or p[1] == "write"]
+    seqs += pairs if tier == "thorough" else [p for i, p in enumerate(pairs) if i % 3 == 0 or p[0] in ("listen", "ack", "open_rx_pipe") or p[1] == "write"
+                                              or p[0] == p[1]]  # (the same setter twice: a field set and then changed back)
     seqs += [("open_rx_pipe", "open_tx_pipe", "listen"), ("open_rx_pipe", "close_rx_pipe", "listen"), ("ack", "dyn", "payload_length")]
     for s in seqs:
         out.append(Job("L4-configuration", l4_config, dict(calls=list(s)), cost=len(s)))
